@@ -103,6 +103,13 @@ func main() {
 	if t := os.Getenv("VERIF_TIER"); t != "" && *tier == "" {
 		*tier = t
 	}
+	if *prop == "ALL" && *mchild {
+		runMutantChildAll(*repo, *verif, Mutant{File: *mfile, Start: *mstart, End: *mend, Repl: *mrepl})
+		return
+	}
+	if *prop == "ALL" {
+		os.Exit(RunGlobalMatrix(*repo, *verif, seed))
+	}
 	ps := registry[*prop]
 	if ps == nil {
 		fmt.Fprintf(os.Stderr, "unknown property %q\n", *prop)
